@@ -706,6 +706,30 @@ class StartStopSuite(SystemSuite):
                 return f"row {r} = {bells} is not a complete row of the tower"
         return None
 
+    def oracle_C03(self, case, out):
+        """Whatever the calls: a row either follows the one before by a legal change (no bell moves more than one
+        place, covers stay), or it is rounds / the opening row (That's all, Rounds, a new touch)."""
+        if "trace" not in out or case["oracle"].get("relook_mid") is not None:
+            return None          # (the mid-tick Look to is a start-discipline case: C01/C06, findings F4/F5)
+        n = case["oracle"]["n"]
+        spec = case["gen"]
+        custom = spec.get("custom")
+        if custom is not None and len(custom) > n:
+            return None
+        opening = [gens.BELL_NAMES.index(c) + 1 for c in custom] if custom else []
+        opening += [b for b in range(1, n + 1) if b not in opening]
+        rounds = list(range(1, n + 1))
+        rows = [b for (_r, b, _t) in rows_rung(out) if len(b) == n]
+        for i in range(1, len(rows)):
+            a, b = rows[i - 1], rows[i]
+            if b in (rounds, opening) or sorted(b) != rounds or sorted(a) != rounds:
+                continue
+            moved = [x for x in rounds if abs(a.index(x) - b.index(x)) > 1]
+            if moved:
+                return (f"row {i} = {b} follows {a}: bell(s) {moved} move more than one place although the row is "
+                        f"neither rounds nor the opening row")
+        return None
+
 
 # ============================================================================= C05 at Bot level
 class SecondTouchSuite(StartStopSuite):
@@ -1153,6 +1177,14 @@ class CompositionSuite(SystemSuite):
             sch = Schedule(look_to, dur)
             nrows = len(p["rows"]) + 9
             evs = [ev(0, "global", [True] * n), ev(look_to, "call", "Look to")]
+            humans = []
+            if rng.random() < 0.4:
+                # some bells (often the treble) are in human hands: the calls of a row are Wheatley's to make whoever
+                # leads it.  (The scripted rhythm does not wait for anybody, so the humans need not ring.)
+                humans = sorted(set(rng.sample(range(1, n + 1), rng.randint(1, max(1, n // 2))) + ([1] if rng.random() < 0.5 else [])))
+                evs.append(ev(Fraction(3, 100), "user_entered", 11, "Alice"))
+                for b in humans:
+                    evs.append(ev(Fraction(5, 100) + Fraction(b, 10000), "assign", b, 11))
 
             def place_go(base_row):
                 g = (rng.randint(0, 6), rng.randrange(n), rng.random() < 0.25)
@@ -1178,7 +1210,7 @@ class CompositionSuite(SystemSuite):
                    "rhythm": {"kind": "scripted", "durs": [fstr(dur)] * (total * n + 8)},
                    "delta": fstr(rng.choice([0, Fraction(1, 1000)])),
                    "horizon": fstr(sch.end_of(total * n) + Fraction(1, 3000)), "events": sorted_events(evs),
-                   "oracle": {"n": n, "go": go, "relook": relook, "go2": go2}}
+                   "oracle": {"n": n, "go": go, "relook": relook, "go2": go2, "humans": humans}}
 
     def to_coq(self, case, out):
         c = {k: v for k, v in case.items() if k != "oracle"}
@@ -1253,9 +1285,11 @@ class CompositionSuite(SystemSuite):
                 expected += [("go", c) for c in early[j]]
         for k, (_bells, cs) in enumerate(comp):
             expected += [(m + k, c) for c in cs]
+        DUR = Fraction(1, 8)        # the scripted rhythm: every blow takes this long
+        horizon = Fraction(case["horizon"])
         n_started = len(got)
-        if got and not [ts for (ts, _b, _h) in st if ts >= got[-1][2]]:
-            n_started -= 1          # the last row was begun but its first bell has not struck yet
+        if got and got[-1][2] + DUR > horizon:
+            n_started -= 1          # the last row was begun but its first blow is not over yet
         expected = [(w, c) for (w, c) in expected if (w == "go" and g < len(got)) or (w != "go" and w < n_started)]
         if [c for _w, c in expected] != [c for _t, c in made]:
             return label + f"calls made {[c for _t, c in made]} but the composition says {[c for _w, c in expected]}"
@@ -1265,9 +1299,8 @@ class CompositionSuite(SystemSuite):
                 if t != Fraction(go[1]):
                     return label + f"missed call {c!r} was not made at once when Go came late"
             else:
-                # at the lead of that row: same instant as the first strike of the row, after it
-                first_strike = [ts for (ts, _b, _h) in st if ts >= lead_times[where]]
-                if not first_strike or t != first_strike[0]:
+                # at the lead of that row: the instant at which the row's first blow is due, whoever rings that bell
+                if t != lead_times[where] + DUR:
                     return label + f"call {c!r} of row {where} was not made as that row's first bell struck"
         return None
 
